@@ -29,6 +29,8 @@ def run(repo, chk):
     chk.assumptions = ['str.split() without arguments splits on runs of characters for which str.isspace() is true', 'coordinates lie within the page (ACCSEED bound lattice)']
     R = Rules(repo, chk)
     refcheck.run_all(R, repo, chk, 'RECUR', 'alto_ref.py', WHAT)
+    refcheck.run_all(R, repo, chk, 'RECUR', 'driver_ref.py', {}, only=('create_ocr_processing_element',))
+    refcheck.run_all(R, repo, chk, 'RECUR', 'crop_ref.py', {'get_crop_inputs': 'line coordinates used for the word boxes'}, only=('get_crop_inputs', 'reverse_line_mapping', 'crop_init'))
     refcheck.run_all(R, repo, chk, 'RECUR', 'conf_ref.py', {'get_line_confidence': 'word confidences come from the per-character confidences of the aligned line'}, only=('get_line_confidence', 'get_line_confidence_transformer'))
     refcheck.run_all(R, repo, chk, 'RECUR', 'fa_ref.py', {'align_text': 'character positions used for the word boxes'}, only=('align_text', 'force_align'))
     refcheck.run_all(R, repo, chk, 'RECUR', 'logits_ref.py', {}, only=('get_dense_logits', 'get_full_logprobs', 'log_softmax'))
@@ -40,7 +42,7 @@ def run(repo, chk):
     R.run('PAIR', margins, repo, Soft(chk))
     R.run('TABLE', table, repo, chk)
     R.run('NEGSLICE', negslice, repo, chk)
-    chk.expect('RECUR', 16)
+    chk.expect('RECUR', 20)
     chk.expect('TOKEN', 4)
     chk.expect('SIBLING', 2)
     chk.expect('INTATTR', 30)
